@@ -1508,3 +1508,79 @@ func c07IncrementField(c *Ctx, r *Report, rule string) {
 	}
 	r.Floor(rule, 4, "counter, sub-key counter, table and numerical Sample")
 }
+
+// ---------------------------------------------------------------- C11-f integer helpers stay in the integers
+
+// c11IntegerExact (C11-f/integer-exact): helpers over integers (bucket,
+// bucketrange, clamp, sumi, ...) are specified for all argument values; an
+// int64 put through float64 and back is only exact below 2^53, so a
+// computation int -> float64 -> int (floor of a float quotient, say) gives a
+// wrong bucket for large values although it looks equivalent. Reported: a
+// conversion to an integer type whose operand contains a float64 conversion of
+// an integer-typed value (directly or through one local). (The power-of-ten
+// bucket used to be computed as int(math.Log10(float64(v))): Log10(1e15) is
+// 14.999999999999998, so {expbucket 1000000000000000} gave 1e14 - found by
+// this rule, see known_findings.txt.)
+func c11IntegerExact(c *Ctx, r *Report, rule string) {
+	n := 0
+	for _, fi := range c.AllFuncDecls(stdlibPkg) {
+		info := fi.Pkg.TypesInfo
+		isIntT := func(t types.Type) bool {
+			b, ok := t.Underlying().(*types.Basic)
+			return ok && b.Info()&types.IsInteger != 0
+		}
+		isFloatT := func(t types.Type) bool {
+			b, ok := t.Underlying().(*types.Basic)
+			return ok && b.Info()&types.IsFloat != 0
+		}
+		// locals defined from an expression that contains float64(<int>)
+		hasIntToFloat := func(e ast.Expr) bool {
+			hit := false
+			ast.Inspect(e, func(y ast.Node) bool {
+				if ce, ok := y.(*ast.CallExpr); ok && isConversion(info, ce) && len(ce.Args) == 1 {
+					if isFloatT(info.TypeOf(ce)) && isIntT(info.TypeOf(ce.Args[0])) {
+						if _, isConst := constInt(info, ce.Args[0]); !isConst {
+							hit = true
+						}
+					}
+				}
+				return true
+			})
+			return hit
+		}
+		tainted := map[types.Object]bool{}
+		ast.Inspect(fi.Decl.Body, func(x ast.Node) bool {
+			if as, ok := x.(*ast.AssignStmt); ok && len(as.Lhs) == len(as.Rhs) {
+				for i, rhs := range as.Rhs {
+					if o := identObj(info, as.Lhs[i]); o != nil && isFloatT(o.Type()) && hasIntToFloat(rhs) {
+						tainted[o] = true
+					}
+				}
+			}
+			return true
+		})
+		ast.Inspect(fi.Decl.Body, func(x ast.Node) bool {
+			ce, ok := x.(*ast.CallExpr)
+			if !ok || !isConversion(info, ce) || len(ce.Args) != 1 || !isIntT(info.TypeOf(ce)) || !isFloatT(info.TypeOf(ce.Args[0])) {
+				return true
+			}
+			round := hasIntToFloat(ce.Args[0])
+			ast.Inspect(ce.Args[0], func(y ast.Node) bool {
+				if id, ok := y.(*ast.Ident); ok && tainted[info.Uses[id]] {
+					round = true
+				}
+				return true
+			})
+			if !round {
+				return true
+			}
+			n++
+			r.Bad(rule, fi.Name, exprStr(ce), c.Pos(ce.Pos()), "an integer argument is converted to float64 and the result back to an integer: exact only below 2^53, so for large values the helper returns a neighbouring multiple / a value that is off by the rounding of the float - the documented integer semantics (e.g. bucket b with b <= v < b+s) no longer holds for all argument values")
+			return true
+		})
+	}
+	if n == 0 {
+		r.OK(rule, stdlibPkg, "scan", "-", "scan: no integer value takes a round trip through float64 in the helper package")
+	}
+	// "for every" rule: no instance is expected; seed C11-m11 and the pre-fix expbucket are its positive examples
+}
